@@ -1349,6 +1349,7 @@ OUTSIDE[("GPValve", "initial_setting")] = "a GPV's setting is its curve (headlos
 OUTSIDE[("Curve", "curve_type")] = "an INP curve has no type field: the type follows from the element that refers to it (unreferenced typed curves are outside the statement)"
 OUTSIDE[("Source", "name")] = "INP files store sources without names"
 OUTSIDE[("Options.time", "pattern_interpolation")] = "WNTR-only"
+OUTSIDE[("Pattern", "wrap")] = "WNTR-only: an INP pattern always repeats (a non-wrapping pattern, e.g. a fire-flow pattern, has no place in the file)"
 OUTSIDE[("Options.hydraulic", "inpfile_units")] = "the unit system of the file (quantified over)"
 
 
